@@ -60,6 +60,21 @@ func (s *serveOpts) runE(cmd *cobra.Command, _ []string) error {
 	defer cancel()
 
 	e := echo.New()
+	// answer with the structured error (status code, key, fields) instead of
+	// echo's generic 500 for anything that is not an echo.HTTPError
+	e.HTTPErrorHandler = func(err error, c echo.Context) {
+		var ce *cli.Error
+		if errors.As(err, &ce) && !c.Response().Committed {
+			code := ce.Code
+			if code < 400 || code > 599 {
+				code = http.StatusInternalServerError
+			}
+			if jerr := c.JSON(code, ce); jerr == nil {
+				return
+			}
+		}
+		e.DefaultHTTPErrorHandler(err, c)
+	}
 
 	e.GET("/", s.version)
 	e.POST("/build", s.build)
